@@ -159,8 +159,8 @@ CallFailed(e) ==
    ELSE IF ~e.r.ok THEN {"C02.ResultIsRef"}
    ELSE IF NumUnranked(e.r.val) THEN {}
    ELSE IF Match(e.r.val, ref.val) THEN {} ELSE {"C02.ResultIsRef"})
-  \cup (IF Len(e.rs) = 1 THEN {} ELSE
-          IF AllWhollyKnown(e.a) THEN {"C20.Pure"} ELSE {"C20.Pure"})
+  \cup (IF Len(e.rs) = 1 THEN {} ELSE {"C20.Pure"})
+  \cup (IF Len(e.rr) = 1 THEN {} ELSE {"C20.RepInvariant"})
   \cup (IF e.r.ok /\ ~WellFormed(e.r.val) THEN {"C06.WellFormed"} ELSE {})
   \cup (IF e.r.ok /\ AllWhollyKnown(e.a) /\ ~WhollyKnown(e.r.val) /\ e.api \in AllOps THEN {"C01.KnownInKnownOut"} ELSE {})
   \cup (IF e.r.ok /\ AllWhollyKnown(e.a) /\ e.api \in NeverNullOps /\ e.r.val.st = "null" THEN {"C01.NeverNull"} ELSE {})
@@ -172,6 +172,7 @@ WeakPremise(e) ==
   /\ AllRanked(e.a) /\ AllRanked(e.b) /\ ResRanked(e.ra) /\ ResRanked(e.rb)
   /\ \A i \in 1..Len(e.a) : Admits(e.b[i], e.a[i])
 WeakFailed(e, P) ==
+  (IF Has(e, "rbs") /\ Len(e.rbs) # 1 THEN {"C20.Pure"} ELSE {}) \cup
   IF ~e.ra.ok THEN {}       \* failing concrete calls are outside the quantifier
   ELSE IF ~e.rb.ok THEN {P \o ".NoNewFailure"}
   ELSE (IF Admits(e.rb.val, e.ra.val) THEN {} ELSE {P \o ".ResultAdmits"})
